@@ -7,47 +7,47 @@ VERIF = os.path.dirname(os.path.dirname(os.path.abspath(__file__)))
 PY = '/venv/bin/python'
 
 LEVEL_TEXT = {
-    'C01': 'Static necessary conditions of binary round-trip: encode/decode stream-protocol conformance of every PER/UPER/OER class (path-set inclusion under every configuration), encode/decode pairing in all dispatch tables, DEFAULT elide/restore pairing, derived-width consistency. Decides the shape, not value equality.',
-    'C02': 'Static pairing/literal-agreement/REAL-formatting dataflow rules over jer.py and xer.py; decides structural necessary conditions, not document validity or value equality.',
-    'C03': 'Static DER canonical-form obligations visible in code shape (SET sorted by tag, SET OF sorted, primitive-only encode paths, restricted time forms, definite lengths only, CHOICE forces EXPLICIT, minimal length/tag tables).',
-    'C04': 'Static acceptance-shape rules for the BER decoder (indefinite allowed on constructed classes, length-is-None handling, constructed-tag aliases, order-insensitive member loop, no length minimality test, segments joined before text decoding).',
-    'C05': 'Static agreement of PER Encoder/Decoder threshold and fragmentation tables with each other and the X.691 constants; UPER = PER minus alignment; SET ordering; PER-visible constraint plumbing.',
-    'C06': 'Static agreement of OER width/short-form/tag tables between Encoder, Decoder and X.696 constants; universal tag table across codecs; fixed-size decisions; extension-bitmap arithmetic by bounded expression evaluation.',
-    'C07': 'Static completeness of the unknown-extension path on every decode entry point of every decoding codec; skip-by-length def-use; lenient additions.',
-    'C08': 'Static progress arguments: TAG_MISMATCH sentinel discipline, loop progress templates on every decode-reachable while loop, bounded wire-derived counts, decode purity.',
-    'C09': 'Static analysis of the generated-code templates and C helper strings (pycparser): checked allocation before every buffer index, bounds check emitted before runtime-length access, encode/decode template pairing, helper registry closure/order, reject-not-mistranslate, C field type holds the range.',
+    'C01': 'Static necessary conditions of binary round-trip: Paths(encode) <= Paths(decode) over the Encoder/Decoder token vocabulary for every PER/UPER/OER class under every configuration (abstract interpretation), pairing in all dispatch tables, DEFAULT elide/restore pairing on path summaries, decoder-derived widths by bounded evaluation, extension-marker state machine, alignment over the whole write position. Decides the shape, not value equality.',
+    'C02': 'Static pairing / literal-agreement / REAL-formatting rules over jer.py and xer.py on path summaries (special values excluded before formatting, pass-through shortcuts only over identity conversions); structural necessary conditions, not document validity or value equality.',
+    'C03': 'Static DER canonical-form obligations visible in code shape (SET sorted by tag, SET OF sorted, primitive-only encode paths, restricted and zero-filled time forms, definite lengths only, CHOICE forces EXPLICIT on every path that sets a tag kind, minimal length/tag tables, base-128 thresholds).',
+    'C04': 'Static acceptance-shape rules for the BER decoder (indefinite allowed on constructed classes, length-is-None handled before arithmetic wherever the length is handed to, end-of-contents typestate, constructed-tag aliases, order-insensitive member loop, no length minimality test, segments joined before text decoding).',
+    'C05': 'PER/UPER primitives, INTEGER and the CHOICE index evaluated on boundary arguments by the checker\'s own bit-level interpreter against an X.691 oracle (encoder bits and decoder read-back); UPER = PER minus alignment on token paths; SET ordering; PER-visible constraint plumbing; copy discipline.',
+    'C06': 'OER length/ENUMERATED/tag primitives and the INTEGER width table evaluated on boundary arguments against X.696; universal tag table across codecs; fixed-size decisions; extension-bitmap arithmetic by bounded evaluation; E1 conformance of the OER classes.',
+    'C07': 'Static completeness of the unknown-extension path on every decode entry point of every decoding codec (path summaries); skip-by-length def-use; lenient additions followed into the helpers that receive the flag.',
+    'C08': 'Static progress arguments: TAG_MISMATCH sentinel discipline, loop progress templates on every decode-reachable while loop, interprocedural provenance of wire-derived loop counts and of ** exponents, decode purity.',
+    'C09': 'Static analysis of the generator templates and C helper strings (pycparser): checked allocation before every buffer index, bounds check emitted before runtime-length access, encode/decode template pairing along every path, dispatch agreement read off path summaries, helper registry closure/order, 64-bit rejection and C field type by bounded evaluation.',
     'C10': 'As C09 for the OER generator plus exact decision-table equivalence of static-length and integer-width tables between Python generator, C helpers and the Python OER codec.',
-    'C11': 'Static constraint plumbing: every constrained kind reaches is_in_range -> ConstraintsError; check invoked on all three API entry points (must-pass-through); descriptor-key coverage on the reference path; extensible => unconstrained.',
-    'C12': 'Static location-wrapper discipline at every named-child call and no-foreign-exception rule for data-keyed lookups.',
-    'C13': 'Static who-may-write / idempotence-guard / option-taint rules over in-place rewrites of the specification dictionary.',
-    'C14': 'Static lexer/grammar literal rules: comment pre-pass recognises string literals and preserves new-lines; no grammar literal fixes a white-space layout.',
-    'C15': 'Static agreement of the length probe and the decoders (shared decode_length), exception->result mapping and handler order, no IndexError escape, tag continuation constants.',
-    'C16': 'Static guard discipline of PER/OER Decoder primitives (every raw read of decoder state dominated by a remaining-bits test), no bypass, error hierarchy.',
-    'C17': 'Static cache-key completeness/unambiguity and bypass rules (key clause only).',
+    'C11': 'Static constraint plumbing: every ranged checker class establishes is_in_range on every non-raising path (through base-class and helper calls); check invoked on all three API entry points (must-pass-through); descriptor-key coverage on the reference path; extensible => unconstrained.',
+    'C12': 'Static location-wrapper discipline at every named-child call (try/except, function wrappers, context managers), add_location de-duplication only of the identical element, and no-foreign-exception rule for data-keyed lookups.',
+    'C13': 'Static who-may-write / idempotence-guard / option-taint rules over in-place rewrites of the specification dictionary (path summaries of the second run).',
+    'C14': 'Static lexer/grammar literal rules: comment pre-pass recognises string literals and preserves new-lines (regex ASTs); no grammar literal fixes a white-space layout; the parser parses the pre-passed text.',
+    'C15': 'Static agreement of the length probe and the decoders (shared decode_length), exception->result mapping and handler order, no IndexError escape (followed into helpers), tag continuation constants, no open-ended slice of the whole input buffer.',
+    'C16': 'Static guard discipline of PER/OER Decoder primitives (every raw read of decoder state is preceded on every path by a remaining-bits test, directly or through a checking helper), no bypass, error hierarchy.',
+    'C17': 'Static cache-key completeness/unambiguity and bypass rules (key clause), lossless flow of the file contents into the key, and compiled state kept in instances (what the pickled cache entry carries).',
     'C18': 'Effect analysis with interprocedural summaries: no runtime-reachable method writes state that outlives the call or its input; scratch objects are fresh per call.  A sufficient condition for statelessness under any interleaving.',
-    'C19': 'Static shallow-copy discipline, DEFAULT conversion keyed on the resolved type, descriptor-key coverage on the reference path, lookup order.',
-    'C20': 'Static quoting-sanitiser, emptiness-guard and REAL-format dataflow rules over gser.py.',
+    'C19': 'Static shallow-copy ownership on path summaries, DEFAULT conversion keyed on the resolved type (all parser functions), descriptor-key coverage on the reference path, lookup order, compiled-type cache key.',
+    'C20': 'Static quoting-sanitiser, emptiness-guard and REAL-format rules over gser.py (inlined return expressions).',
 }
 TECHNIQUE = {
-    'C01': 'static analysis: AST path-set protocol conformance + dispatch-table pairing',
-    'C02': 'static analysis: AST sibling pairing, literal agreement, def-use taint',
-    'C03': 'static analysis: dispatch-table/sibling comparison, encode-path reachability, boundary tables',
-    'C04': 'static analysis: class-attribute/MRO rules, dominance of length-is-None tests',
-    'C05': 'static analysis: boundary-table extraction vs frozen X.691 constants, sibling path equality',
-    'C06': 'static analysis: decision-table equivalence vs X.696 constants, tag-table agreement, bounded expression evaluation',
-    'C07': 'static analysis: per-entry-point unknown-path completeness (contradiction rule), def-use',
-    'C08': 'static analysis: sentinel result-check, loop progress templates, bound provenance, effect analysis',
-    'C09': 'static analysis: pycparser bounds rules on C helper strings, template pairing, decision-table cell enumeration',
-    'C10': 'static analysis: pycparser rules, template pairing, exact decision-table equivalence',
-    'C11': 'static analysis: must-pass-through on API entry points, dispatch-table plumbing',
-    'C12': 'static analysis: try/except wrapper discipline at named-child call sites, keyed-lookup taint',
-    'C13': 'static analysis: taint of the specification dict, idempotence-guard table, option taint',
+    'C01': 'static analysis: abstract interpretation of encode/decode into token path sets (inclusion per configuration), path summaries, bounded evaluation of extracted arithmetic',
+    'C02': 'static analysis: path summaries (conditions before effects), sibling pairing, literal agreement, class-hierarchy override closure',
+    'C03': 'static analysis: dispatch-table evaluation, path summaries, encode-path reachability, boundary tables',
+    'C04': 'static analysis: class-attribute/MRO rules, path summaries with helper delegation, flag typestate dataflow',
+    'C05': 'static analysis: bounded evaluation of primitive and type-level summaries by an own bit-level interpreter vs X.691 oracle; token-path comparison',
+    'C06': 'static analysis: bounded evaluation vs X.696 oracle, decision-table equivalence, tag-table agreement',
+    'C07': 'static analysis: per-entry-point unknown-path completeness on path summaries, def-use, token-path conformance',
+    'C08': 'static analysis: sentinel result-check, loop progress templates, interprocedural bound provenance, effect analysis',
+    'C09': 'static analysis: pycparser bounds rules on C helper strings, template pairing along paths, decision-table cell enumeration',
+    'C10': 'static analysis: pycparser rules, template pairing along paths, exact decision-table equivalence',
+    'C11': 'static analysis: must-pass-through on API entry points (path summaries), dispatch-table plumbing',
+    'C12': 'static analysis: wrapper discipline at named-child call sites, path summaries of add_location, keyed-lookup taint',
+    'C13': 'static analysis: taint of the specification dict, idempotence guards on path summaries, option taint',
     'C14': 'static analysis: regex AST (re._parser) and grammar-literal lint',
-    'C15': 'static analysis: shared-callee, except-order and constructor-argument rules',
-    'C16': 'static analysis: guard dominance on decoder-state reads',
-    'C17': 'static analysis: parameter-to-key dataflow completeness',
+    'C15': 'static analysis: shared-callee, except-order, exception-mapping and buffer-slice rules followed through helpers',
+    'C16': 'static analysis: guard-before-access on path summaries (with checking helpers), raise-type rule over the decode call graph',
+    'C17': 'static analysis: parameter-to-key dataflow completeness, helper inlining, class-level state lint',
     'C18': 'static analysis: interprocedural effect (purity) analysis over the call graph',
-    'C19': 'static analysis: copy-discipline effect rules, descriptor-key coverage',
+    'C19': 'static analysis: copy-ownership on path summaries, descriptor-key coverage, sibling conversion agreement',
     'C20': 'static analysis: sanitiser/taint and guard rules on text emission',
 }
 NOT_YET = 'check not built yet in this round (claimed partially in DESIGN.md; will be added)'
